@@ -92,6 +92,27 @@ FUNCS = [
     ("QobjEvo.tidyup", "qutip/core/cy/qobjevo.pyx", "QobjEvo.tidyup", ["self"], None),
     ("QobjEvo._register_feedback", "qutip/core/cy/qobjevo.pyx", "QobjEvo._register_feedback", ["self"], None),
     ("QobjEvo._update_feedback", "qutip/core/cy/qobjevo.pyx", "QobjEvo._update_feedback", ["self"], None),
+    # ---- second wave
+    ("MultiTrajSolver.__init__", "qutip/solver/multitraj.py", "MultiTrajSolver.__init__", ["self"], None),
+    ("_StochasticRHS.__init__", "qutip/solver/stochastic.py", "_StochasticRHS.__init__", ["self"], None),
+    ("BRSolver.__init__", "qutip/solver/brmesolve.py", "BRSolver.__init__", ["self"], None),
+    ("brmesolve", "qutip/solver/brmesolve.py", "brmesolve", ["kwargs"], None),
+    ("FMESolver.__init__", "qutip/solver/floquet.py", "FMESolver.__init__", ["self"], None),
+    ("StochasticSolver.__init__", "qutip/solver/stochastic.py", "StochasticSolver.__init__", ["self"], "MultiTrajSolver"),
+    ("smesolve", "qutip/solver/stochastic.py", "smesolve", ["kwargs"], None),
+    ("ssesolve", "qutip/solver/stochastic.py", "ssesolve", ["kwargs"], None),
+    ("HEOMSolver.__init__", "qutip/solver/heom/bofin_solvers.py", "HEOMSolver.__init__", ["self"], "Solver"),
+    ("Coefficient.replace_arguments", "qutip/core/cy/coefficient.pyx", "Coefficient.replace_arguments", [], None),
+    ("Coefficient.__add__", "qutip/core/cy/coefficient.pyx", "Coefficient.__add__", [], None),
+    ("Coefficient.__mul__", "qutip/core/cy/coefficient.pyx", "Coefficient.__mul__", [], None),
+    ("Coefficient.conj", "qutip/core/cy/coefficient.pyx", "Coefficient.conj", [], None),
+    ("FunctionCoefficient.replace_arguments", "qutip/core/cy/coefficient.pyx", "FunctionCoefficient.replace_arguments", ["kwargs"], None),
+    ("StrFunctionCoefficient.replace_arguments", "qutip/core/cy/coefficient.pyx", "StrFunctionCoefficient.replace_arguments", ["kwargs"], None),
+    ("SumCoefficient.replace_arguments", "qutip/core/cy/coefficient.pyx", "SumCoefficient.replace_arguments", ["kwargs"], None),
+    ("MulCoefficient.replace_arguments", "qutip/core/cy/coefficient.pyx", "MulCoefficient.replace_arguments", ["kwargs"], None),
+    ("ConjCoefficient.replace_arguments", "qutip/core/cy/coefficient.pyx", "ConjCoefficient.replace_arguments", ["kwargs"], None),
+    ("NormCoefficient.replace_arguments", "qutip/core/cy/coefficient.pyx", "NormCoefficient.replace_arguments", ["kwargs"], None),
+    ("ConstantCoefficient.replace_arguments", "qutip/core/cy/coefficient.pyx", "ConstantCoefficient.replace_arguments", ["kwargs"], None),
 ]
 
 # constructor / method calls that are inlined: (caller, callee key) -> callee
@@ -206,7 +227,7 @@ SUMMARIES = {
                              fallback=(["options"], [("options", ITEMS)])),
     "Solver.__init__": S(mut=[("self", ALL)], contract=("Solver.__init__", [])),
     "super().__init__@SESolver.__init__": S(mut=[("self", ALL)], contract=("Solver.__init__", [])),
-    "super().__init__@MCSolver.__init__": S(mut=[(0, ALL)], probe="multitraj_init"),
+    "super().__init__@MCSolver.__init__": S(mut=[("self", ALL)], contract=("MultiTrajSolver.__init__", [])),
     "SESolver": S(contract=("SESolver.__init__", [])),
     "MESolver": S(contract=("MESolver.__init__", []),
                   fallback=(["H"], [("H", ALL)])),
@@ -220,6 +241,27 @@ SUMMARIES = {
     "liouvillian": S(contract=("liouvillian", [])),
     "lindblad_dissipator": S(contract=("lindblad_dissipator", [])),
     "_TrajectorySum.merge": S(contract=("_TrajectorySum.merge", [])),
+    # ---- second wave
+    "FunctionCoefficient": S(probe="coeff_ctor_fresh"), "StrFunctionCoefficient": S(probe="coeff_ctor_fresh"),
+    "SumCoefficient": S(probe="coeff_ctor_fresh"), "MulCoefficient": S(probe="coeff_ctor_fresh"),
+    "ConjCoefficient": S(probe="coeff_ctor_fresh"), "NormCoefficient": S(probe="coeff_ctor_fresh"),
+    "ConstantCoefficient": S(probe="coeff_ctor_fresh"), "InterCoefficient": S(probe="coeff_ctor_fresh"),
+    "add_inter": S(probe="coeff_ctor_fresh"), "SpectraCoefficient": S(probe="coeff_ctor_fresh"),
+    "_MultiTrajRHS": S(), "SeedSequence": S(),
+    "_StochasticRHS": S(contract=("_StochasticRHS.__init__", [])),
+    "super().__init__@StochasticSolver.__init__": S(mut=[("self", ALL)], contract=("MultiTrajSolver.__init__", [])),
+    "SMESolver": S(contract=("StochasticSolver.__init__", [])),
+    "SSESolver": S(contract=("StochasticSolver.__init__", [])),
+    "BRSolver": S(contract=("BRSolver.__init__", [])),
+    "._prepare_rhs": S(mut=[(0, ["_init_rhs_time"])], probe="br_prepare_rhs"),
+    "bloch_redfield_tensor": S(probe="br_tensor_fresh"),
+    "floquet_tensor": S(probe="floquet_tensor_fresh"),
+    "inspect.signature": S(), ".signature": S(),
+    "qutip.QobjEvo": S(ret=("new", EVO_FIELDS), probe="qobjevo_ctor"),
+    "HierarchyADOs": S(probe="heom_ctor"), "CoreOptions": S(),
+    "._combine_bath_exponents": S(probe="heom_ctor"),
+    "._calculate_rhs": S(mut=[(0, ALL)], probe="heom_ctor"),
+    "super().__init__@HEOMSolver.__init__": S(mut=[("self", ALL)], contract=("Solver.__init__", [])),
 }
 
 FUNC_INDEX = {f[0]: f for f in FUNCS}
